@@ -22,6 +22,11 @@ class C09(Prop):
         "one destination; the classic-engine nodes (stream.ProcessorNode, stream.DestinationAckerNode) and the "
         "built-in connector sandbox are driven by separate case kinds (coq/Funnel/V1.v)",
         "a hang is observed through a per-case deadline of 20 s (never-hangs is partial, runtime)",
+        "classic-engine acker cases carry a feeding schedule (groups of messages handed over with the queue "
+        "run empty in between, the harness sleeps 2 ms for the worker to go idle) and replies of 1..3 acks; "
+        "every schedule x every cut of the ack stream into replies x exact/surplus/wrong/duplicate/negative/"
+        "missing acks is enumerated for <= 3 (quick) / 4 (thorough) messages; a node found waiting in "
+        "Destination.Ack after the destination delivered every ack it owes is reported as wedged",
     ]
     exhaustive_tiers = ("quick", "thorough")
 
@@ -30,10 +35,11 @@ class C09(Prop):
 
     def gen_shards(self, tier, seed):
         if tier == "quick":
-            rnd = [["--seed", str(seed), "--n", "60"] for _ in range(9)]
-            cond = [["--mode", "cond:%d:4" % i] for i in range(4)]
+            # 16 shards with the 3 corpus files: one wave on 16 cores
+            rnd = [["--seed", str(seed), "--n", "90"] for _ in range(6)]
+            cond = [["--mode", "cond:%d:2" % i] for i in range(2)]
             v1 = [["--mode", "v1:%d:3" % i, "--seed", str(seed), "--n", "60"] for i in range(3)]
-            dest = [["--mode", "dest:%d:4" % i] for i in range(4)]
+            dest = [["--mode", "dest:%d:2" % i] for i in range(2)]
             return rnd + cond + dest + v1
         rnd = [["--seed", str(seed), "--n", "2500"] for _ in range(NCPU)]
         cond = [["--mode", "cond:%d:%d" % (i, NCPU)] for i in range(NCPU)]
